@@ -51,7 +51,7 @@ def b_moments_flagged(ctx):
 
 def main(tier, seed):
     quick = tier == "quick"
-    items = standard_items(seed, tier, 8, 120, bench_quick=3, ngoals=4, corpus_quick=9)
+    items = standard_items(seed, tier, 8, 120, bench_quick=3, ngoals=4, corpus_quick=9, ps_quick=6, ps_thorough=60)
     # declared instead of inferred types: generated programs know the value sets of their finite variables
     extra = []
     for it in items:
